@@ -458,7 +458,8 @@ def run_job(job):
         parg = job["parg"] if "parg" in job else path_string(sp, cwd)
         roots = sorted([("cwd", cwd), ("nx", NX_ROOT)], key=lambda x: -len(x[1]))
         hdr = {"fmt": job.get("fmt") or "", "path": {k: sp[k] for k in ("root", "dirs", "stem", "exts", "fexists", "dexists")},
-               "mutant": job.get("mut") is not None, "dcwrapper": bool(job.get("dcwrapper"))}
+               "mutant": job.get("mut") is not None, "dcwrapper": bool(job.get("dcwrapper")),
+               "member": job.get("member") or {"k": "none", "archseg": "", "dirs": [], "stem": "", "exts": []}}
         out["hdr"] = hdr
         out["parg"] = parg
         old = signal.signal(signal.SIGALRM, _alarm)
@@ -1027,3 +1028,70 @@ def name_variant(pkg: bytes, fmt, which, kind) -> bytes:
     if n[0] == 0:
         raise ValueError(f"no unit container found in the {fmt} package (writer changed?)")
     return out
+
+
+# ----------------------------------------------------------------------------- archive members
+ARCH_EXTS = {"zip": ["zip"], "tar": ["tar"], "tgz": ["tar", "gz"], "7z": ["7z"]}
+MEMBER_LAST_EXT = ["txt", "md", "csv", "json", "html"]
+
+
+def spell_member(am, rng):
+    """Abstract member (IfaceGen MemberForms) -> spelled member record + the member name stored in the archive."""
+    exts = [rng.choice(["final", "v2", "2024", "BAK"]) if i < len(am["exts"]) - 1 else rng.choice(MEMBER_LAST_EXT)
+            for i in range(len(am["exts"]))]
+    m = {"dirs": [rng.choice(SEG[t]) if t != "x.y" else rng.choice(["v1.2", "x.y"]) for t in am["dirs"]],
+         "stem": rng.choice(STEM[am["stem"]]), "exts": exts}
+    name = ("/" if am["abs"] else "") + "/".join(m["dirs"] + [".".join([m["stem"]] + exts)])
+    return m, name
+
+
+def archive_bytes(kind, member_name, data=b"zq0001x zq0002x\n"):
+    """One-member archive; the member is stored under exactly the given name (absolute names are kept)."""
+    if kind == "zip":
+        import zipfile
+        buf = io.BytesIO()
+        with zipfile.ZipFile(buf, "w") as z:
+            zi = zipfile.ZipInfo("placeholder")
+            zi.filename = member_name
+            zi.compress_type = zipfile.ZIP_DEFLATED
+            z.writestr(zi, data)
+        return buf.getvalue()
+    if kind in ("tar", "tgz"):
+        import tarfile
+        buf = io.BytesIO()
+        with tarfile.open(fileobj=buf, mode="w:gz" if kind == "tgz" else "w", format=tarfile.PAX_FORMAT) as t:
+            ti = tarfile.TarInfo("placeholder")
+            ti.name = member_name
+            ti.size = len(data)
+            t.addfile(ti, io.BytesIO(data))
+        return buf.getvalue()
+    if kind == "7z":
+        from .c10_sevenz import write_7z          # independent 7z writer of C09 / C10 (read-only use)
+        out = write_7z([{"name": member_name, "kind": "file", "data": data}], [[0]])
+        return out[0] if isinstance(out, tuple) else out
+    raise ValueError(kind)
+
+
+# ----------------------------------------------------------------------------- heading structures
+def struct_doc(fmt, items, pics, seed=0):
+    """Flow document whose body is the given sequence of h1 / h2 / h3 / p / e(mpty paragraph) / t(able) items."""
+    from .docrun import rich_doc
+    n = [0]
+
+    def tok():
+        n[0] += 1
+        return ["r", n[0]]
+    blocks = []
+    for it in items:
+        if it in ("h1", "h2", "h3"):
+            blocks.append(["h", int(it[1]), [tok()]])
+        elif it == "p":
+            blocks.append(["p", [tok(), ["tab"], tok()]])
+        elif it == "e":
+            blocks.append(["p", []])
+        else:
+            blocks.append(["tbl", [[[["p", [tok()]]], [["p", [tok()]]]], [[["p", [tok()]]], [["p", [tok()]]]], [[["p", [tok()]]], [["p", [tok()]]]]]])
+    doc = {"kind": "flow", "blocks": blocks, "header": [], "footer": [], "props": {"title": "zqT"}}
+    if pics:
+        doc["images"] = rich_doc(fmt, seed).get("images") or []
+    return doc
